@@ -537,6 +537,12 @@ impl Runner {
         d
     }
 
+    /// Dump without the index-soundness oracle (for properties that are not about indexes).
+    pub fn dump_plain(&self) -> Dump {
+        let snap = self.engine().snapshot();
+        dump_snapshot(&snap, self.model.next_iid)
+    }
+
     pub fn reopen(&mut self) -> Result<(), String> {
         self.engine = None;
         self.engine = Some(open_engine(&self.ndb, &self.wal)?);
